@@ -16,10 +16,10 @@ import (
 // fee_collector), bank sends into base-account sources and genesis balances of module-account sources.
 
 type distProfileOpts struct {
-	Prop       string
-	Faulty     bool // F-bank-inj / F-bank-nat (C14); otherwise fault-free and predictive
-	Blocks     [2]int
-	MaxAmtExp  int
+	Prop      string
+	Faulty    bool // F-bank-inj / F-bank-nat (C14); otherwise fault-free and predictive
+	Blocks    [2]int
+	MaxAmtExp int
 }
 
 // linearMinterJSON: one linear period over ~span, then no minting; amount sized so that blocks mint visibly.
